@@ -58,6 +58,7 @@ type VB struct {
 	High     uint64
 	Failover []Failover // newest first
 	Obs      map[int]*ObsState // replica index -> scripted observe state (default: Failover[0].UUID, High)
+	CollHigh map[uint32]uint64 // scripted per-collection high seqno (collection-aware GET_ALL_VB_SEQNOS)
 	streams  []*dcpStream
 }
 
@@ -746,12 +747,29 @@ func (c *conn) dispatch(p *pkt, key []byte, cid uint32, req *Req) {
 				continue
 			}
 			vb.mu.Lock()
+			hi := vb.High
+			if len(p.extras) >= 8 {
+				// collection-aware query: high seqno of that collection in this vBucket
+				cid := binary.BigEndian.Uint32(p.extras[4:])
+				hi = 0
+				if ch, ok := vb.CollHigh[cid]; ok {
+					hi = ch
+				}
+				for _, it := range vb.Items {
+					if it.Cid == cid && it.SeqNo > hi {
+						hi = it.SeqNo
+					}
+				}
+				if len(vb.Items) == 0 && vb.CollHigh == nil {
+					hi = vb.High // synthetic vBuckets without items: everything lives in the queried collection
+				}
+			}
 			out = append(out, u16(uint16(i))...)
-			out = append(out, u64(vb.High)...)
+			out = append(out, u64(hi)...)
 			vb.mu.Unlock()
 		}
 		// the reply's payload is recorded so that oracles compare with what was actually sent
-		c.send(&pkt{magic: 0x81, op: p.op, vb: 0, opaque: p.opaque, val: out}, evlog.Rec{K: "sim.tx", VB: -1, S: string(out)})
+		c.send(&pkt{magic: 0x81, op: p.op, vb: 0, opaque: p.opaque, val: out}, evlog.Rec{K: "sim.tx", VB: -1, S: string(out), A: uint64(len(p.extras))})
 	case OpDcpStreamReq:
 		c.streamReq(p)
 	case OpDcpCloseStream:
@@ -1389,4 +1407,14 @@ func (cl *Cluster) FailoverCopy(vbID uint16) []Failover {
 	vb.mu.Lock()
 	defer vb.mu.Unlock()
 	return append([]Failover{}, vb.Failover...)
+}
+
+func (cl *Cluster) SetCollHigh(vbID uint16, cid uint32, high uint64) {
+	vb := cl.VBs[vbID]
+	vb.mu.Lock()
+	if vb.CollHigh == nil {
+		vb.CollHigh = map[uint32]uint64{}
+	}
+	vb.CollHigh[cid] = high
+	vb.mu.Unlock()
 }
